@@ -372,6 +372,11 @@ func checkMain(args []string) {
 		k := aggs[n].kind
 		if k == "ensures" || k == "inv-entry" || k == "inv-preserved" || k == "decreases" || k == "lemma" || k == "call-requires" || k == "protocol" || k == "typeinv" || k == "captures" || k == "globalinv" || k == "scope" {
 			clauseNames = append(clauseNames, n)
+		} else if k == "nopanic" {
+			// per function only: which functions carry panic-freedom obligations at all (the sites come and go with edits)
+			if i := strings.Index(n, "#nopanic"); i > 0 {
+				clauseNames = append(clauseNames, n[:i]+"#nopanic")
+			}
 		}
 	}
 	// site ordinals (@N) depend on how many call sites precede: pins keep the stem only, so that adding or
